@@ -2,7 +2,7 @@
 from __future__ import annotations
 
 import ast
-from typing import List, Tuple
+from typing import List, Optional, Tuple
 
 from ..engine.match import Spec, require_call, require_guard, require_return
 from ..engine.repo import AnalysisError
@@ -110,20 +110,84 @@ def float_uses(tree: ast.AST) -> List[Tuple[int, str]]:
     return out
 
 
+def _float_in(t) -> Optional[str]:   # type: ignore
+    """a float-valued operation inside a term (int(...) makes an integer again; message formatting is not arithmetic)"""
+    if not isinstance(t, tuple) or not t:
+        return None
+    if t[0] == "c":
+        return ("float literal %r" % t[1]) if isinstance(t[1], float) else None
+    if t[0] == "op" and t[1] == "div":
+        return "true division `/`"
+    if t[0] == "call" and len(t) == 4:
+        f = t[1]
+        if f in (("g", "builtin:int"), ("g", "builtin:fmt"), ("g", "builtin:fstr"), ("g", "builtin:str"), ("g", "builtin:repr"), ("g", "builtin:len")):
+            return None
+        if f[0] == "g" and (f[1] in ("builtin:float", "builtin:round") or f[1].startswith("ext:math.") or f[1].startswith("ext:decimal.")
+                            or f[1] in ("ext:time.time", "ext:time.perf_counter", "ext:time.monotonic")):
+            return "%s()" % f[1].split(":")[-1]
+    for x in t:
+        r = _float_in(x)
+        if r is not None:
+            return r
+    return None
+
+
 def r02_7(ck: Check) -> None:
-    # positive control: the scan must see the true division that exists in networking/params.py
-    ctl = float_uses(ast.parse("X = int(60 * 60 / 30)\nY = float(3)\n"))
-    if len(ctl) != 2:
-        ck.unknown("R02.7", "positive control", "the float-arithmetic scan did not flag its embedded control snippet")
-        return
+    """no float-valued operation flows into what the consensus code decides, returns or stores: the conditions of its events, its return
+    values, stored values and the arguments it hands to other code (logging and printing excluded - timing a validator is not arithmetic)"""
+    for probe, want in ((("op", "div", ("v", "a"), ("c", 2)), True), (("call", ("g", "builtin:int"), (("op", "div", ("v", "a"), ("c", 2)),), ()), False),
+                        (("c", 0.5), True), (("lin", ((("v", "a"), 1),), 3), False)):
+        if bool(_float_in(probe)) != want:
+            ck.unknown("R02.7", "positive control", "the float-flow scan misjudged its embedded control terms")
+            return
+    LOGGING = ("debug", "info", "warning", "error", "exception", "critical", "log")
     for mn in FLOAT_FILES:
         m = ck.repo.module(mn)
-        uses = float_uses(m.tree)
-        construct = "%s: integer-only arithmetic" % short(mn)
-        if not uses:
-            ck.ok("R02.7", construct, "no true division / float / round / math / Decimal in consensus arithmetic", m.path)
+        found = []
+        n_fn = 0
+        for q, fi in sorted(ck.repo.functions.items()):
+            if fi.module is not m or ck.walker.transparent(q):
+                continue            # helpers added later are looked at where recorded code uses them; unused ones decide nothing
+            n_fn += 1
+            s = ck.summ(q, 0)
+            for e in s.events:
+                if e.chain:
+                    continue
+                terms = [c.term for c in e.pc]
+                if e.kind == "return":
+                    terms.append(e.term)
+                elif e.kind == "store" and e.value is not None:
+                    root = e.term
+                    while root[0] in ("s", "a", "sl"):
+                        root = root[1]
+                    if root[0] in ("g", "dict", "list", "call"):
+                        continue        # module-level statistics (timing totals, counters): not part of any decision or result
+                    terms.append(e.value)
+                elif e.kind == "call" and e.parts is not None:
+                    f = e.parts[0]
+                    if (f[0] == "a" and f[2] in LOGGING) or f == ("g", "builtin:print") or (f[0] == "g" and f[1].split(".")[-1] in ("perf_counter", "time", "monotonic")):
+                        continue
+                    if f[0] == "g" and f[1] in ("builtin:fmt", "builtin:fstr", "builtin:str", "builtin:repr"):
+                        continue
+                    terms.extend(e.term[2] if e.term[0] == "call" else [])
+                for t in terms:
+                    r = _float_in(t)
+                    if r is not None:
+                        found.append((e.line, "%s in %s" % (r, short(q))))
+                        break
+        # module-level constants that consensus code reads
+        for name, node in m.assign_nodes.items():
+            try:
+                v = ck.repo.const("%s.%s" % (mn, name))
+            except Exception:
+                continue
+            if isinstance(v, float):
+                found.append((getattr(node, "lineno", 0), "module constant %s is a float" % name))
+        construct = "%s: integer-only arithmetic in what is decided, returned, stored or passed on" % short(mn)
+        if not found:
+            ck.ok("R02.7", construct, "%d functions: no true division / float / round / math / clock value outside logging" % n_fn, m.path)
         else:
-            for ln, what in uses[:4]:
+            for ln, what in found[:4]:
                 ck.violated("R02.7", "%s: %s" % (short(mn), what), "consensus arithmetic must be integer-exact (sums cannot wrap or round); found %s" % what,
                             "%s:%d" % (m.path, ln))
 
